@@ -243,9 +243,9 @@ impl RNum {
     /// a % b = a - b * trunc(a/b), away from the jump
     pub fn rem(a: &RNum, b: &RNum, nz: &mut Noise) -> RNum {
         let d = (a.v / b.v).trunc();
-        let mut r = Self::sub(a, &Self::mul(&RNum::constant(d), b, nz), nz);
-        r.v = a.v % b.v; // the value is the float remainder itself
-        r
+        // the statement defines the remainder as a - b*trunc(a/b); the float `%` is the exactly
+        // rounded value of that and lies within the noise band of this evaluation
+        Self::sub(a, &Self::mul(&RNum::constant(d), b, nz), nz)
     }
 }
 
